@@ -3,8 +3,12 @@
 //
 // Every case is a flow executed by the REAL interpreter
 // (bootengine.NewBootProcess(state).Finish); the resulting bootengine.Log is
-// projected (before any validator touches it), then the REAL validators run on it
-// in the order of validator.All().
+// projected (before any validator touches it) TOGETHER WITH ITS MEMORY LAYOUT (the
+// backing arrays of all range slices of the log, their whole capacity), then the
+// REAL validators run on that one log one after another: the chain of
+// validator.All() and then the two range validators again.  After every run the
+// backing arrays are read again: the slice-level model (Model/ValidatorsHeap.v)
+// must reproduce the issues AND the arrays, stage by stage.
 //
 // Files: main.go (artifacts, actors, actions, running the real code, projection,
 // Gallina printers), gen.go (flow generators), oracle.go (independent oracle:
@@ -22,6 +26,7 @@ import (
 	"sort"
 	"strconv"
 	"strings"
+	"unsafe"
 
 	"github.com/9elements/converged-security-suite/v2/pkg/bootflow/actions/commonactions"
 	"github.com/9elements/converged-security-suite/v2/pkg/bootflow/actions/tpmactions"
@@ -110,6 +115,81 @@ type href struct {
 	art    *hart
 	mapper types.AddressMapper
 	ranges []hrange
+	lay    *layout // nil: a fresh array, cap == len
+}
+
+// layout says how the Ranges slice of a reference lies in memory (the validators
+// sort range arrays in place and append to them, so this is part of the input).
+type layout struct {
+	spare int  // own array: cap = len + spare
+	grp   int  // > 0: a window of the shared array [grp] of the flow (windows in walk order)
+	lim   bool // shared: three-index slice (cap = len); otherwise cap reaches the end of the array
+	real  pkgbytes.Ranges
+	off   int // shared: start of the window (set by realize)
+	cp    int // capacity (set by realize)
+}
+
+// eachRef visits every reference of the flow description (actor codes, then the
+// measurements in step order) in a fixed order.
+func (f *hflow) eachRef(fn func(r *href)) {
+	for _, a := range f.actors {
+		for i := range a.code {
+			fn(&a.code[i])
+		}
+	}
+	for i := range f.steps {
+		for j := range f.steps[i].acts {
+			for k := range f.steps[i].acts[j].meas {
+				m := f.steps[i].acts[j].meas[k]
+				for l := range m {
+					fn(&m[l])
+				}
+			}
+		}
+	}
+}
+
+// realize allocates the arrays the layouts describe (fresh for every run).
+func (f *hflow) realize() {
+	groups := map[int][]*href{}
+	var order []int
+	f.eachRef(func(r *href) {
+		if r.lay == nil {
+			return
+		}
+		if r.lay.grp == 0 {
+			rr := make(pkgbytes.Ranges, len(r.ranges), len(r.ranges)+r.lay.spare)
+			for j, x := range r.ranges {
+				rr[j] = pkgbytes.Range{Offset: x.Off, Length: x.Len}
+			}
+			r.lay.real, r.lay.off, r.lay.cp = rr, 0, cap(rr)
+			return
+		}
+		if _, ok := groups[r.lay.grp]; !ok {
+			order = append(order, r.lay.grp)
+		}
+		groups[r.lay.grp] = append(groups[r.lay.grp], r)
+	})
+	for _, g := range order {
+		total := f.tails[g]
+		for _, r := range groups[g] {
+			total += len(r.ranges)
+		}
+		arr := make(pkgbytes.Ranges, total)
+		o := 0
+		for _, r := range groups[g] {
+			for j, x := range r.ranges {
+				arr[o+j] = pkgbytes.Range{Offset: x.Off, Length: x.Len}
+			}
+			if r.lay.lim {
+				r.lay.real = arr[o : o+len(r.ranges) : o+len(r.ranges)]
+			} else {
+				r.lay.real = arr[o : o+len(r.ranges)]
+			}
+			r.lay.off, r.lay.cp = o, cap(r.lay.real)
+			o += len(r.ranges)
+		}
+	}
 }
 
 func mapperLit(m types.AddressMapper) string {
@@ -136,12 +216,15 @@ func mapperKey(m types.AddressMapper) string {
 	return fmt.Sprintf("?%T", m)
 }
 
-// fresh range slice (cap == len): the validators sort range arrays in place and
-// append to them, so nothing here shares a backing array (the shared-backing
-// probe is separate)
+// without a layout: a fresh range slice with cap == len
 func toRealRef(r href) types.Reference {
 	var rr pkgbytes.Ranges
-	if r.ranges != nil {
+	if r.lay != nil {
+		if r.lay.real == nil && (len(r.ranges) > 0 || r.lay.spare > 0 || r.lay.grp > 0) {
+			panic("c10: layout not realized")
+		}
+		rr = r.lay.real
+	} else if r.ranges != nil {
 		rr = make(pkgbytes.Ranges, len(r.ranges))
 		for j, x := range r.ranges {
 			rr[j] = pkgbytes.Range{Offset: x.Off, Length: x.Len}
@@ -266,6 +349,8 @@ type hflow struct {
 	d6      bool     // two RawBytes artifacts are referenced
 	emptyC  bool     // some actor code reference has no bytes (no ranges / zero-length)
 	mixedFC bool     // image measured by offset references on a UEFI image
+	layKind string      // how the range slices lie in memory (gen.go: layouts)
+	tails   map[int]int // shared arrays: unused elements behind the last window
 }
 
 type measureAct struct{ datas []types.References }
@@ -296,6 +381,7 @@ type runResult struct {
 }
 
 func (f *hflow) run() *runResult {
+	f.realize()
 	res := &runResult{actorIDs: map[types.Actor]int{}, failErrs: map[error]string{}}
 	real := make([]types.Actor, len(f.actors))
 	for i, a := range f.actors {
@@ -366,6 +452,157 @@ type pref struct {
 	art    int // index into flow.arts
 	mapper types.AddressMapper
 	ranges []hrange
+	sl     slot // where the Ranges slice lies (log references only)
+}
+
+// ---------- the memory behind the log ----------
+
+// slot is a Go slice header relative to the table of backing arrays.
+type slot struct{ arr, off, n, c int }
+
+type harray struct {
+	lo, hi uintptr
+	view   []pkgbytes.Range // the whole extent any slice of the log can reach
+}
+
+// heapProj: the backing arrays of all range slices of the log (array 0 is the
+// empty array of nil / zero-capacity slices).  Slices whose reachable extents
+// (up to cap) overlap lie in one allocation.
+type heapProj struct{ arrs []harray }
+
+const rangeSize = unsafe.Sizeof(pkgbytes.Range{})
+
+func logSlices(l bootengine.Log) []pkgbytes.Ranges {
+	var all []pkgbytes.Ranges
+	for _, st := range l {
+		for _, d := range st.MeasuredData {
+			for _, r := range d.References {
+				all = append(all, r.Ranges)
+			}
+		}
+		if st.ActorCode != nil {
+			for _, r := range st.ActorCode.References {
+				all = append(all, r.Ranges)
+			}
+		}
+	}
+	return all
+}
+
+func buildHeap(l bootengine.Log) *heapProj {
+	type iv struct {
+		lo, hi uintptr
+		full   []pkgbytes.Range
+	}
+	var ivs []iv
+	for _, r := range logSlices(l) {
+		if cap(r) == 0 {
+			continue
+		}
+		full := r[:cap(r)]
+		lo := uintptr(unsafe.Pointer(unsafe.SliceData(full)))
+		ivs = append(ivs, iv{lo, lo + uintptr(cap(r))*rangeSize, full})
+	}
+	sort.SliceStable(ivs, func(i, j int) bool { return ivs[i].lo < ivs[j].lo })
+	hp := &heapProj{}
+	for _, x := range ivs {
+		if n := len(hp.arrs); n > 0 && x.lo < hp.arrs[n-1].hi {
+			a := &hp.arrs[n-1]
+			if x.hi > a.hi {
+				a.hi = x.hi
+				a.view = unsafe.Slice(unsafe.SliceData(a.view), int((a.hi-a.lo)/rangeSize))
+			}
+			continue
+		}
+		hp.arrs = append(hp.arrs, harray{x.lo, x.hi, x.full})
+	}
+	return hp
+}
+
+func (hp *heapProj) slotOf(r pkgbytes.Ranges) slot {
+	if cap(r) == 0 {
+		return slot{0, 0, 0, 0}
+	}
+	base := uintptr(unsafe.Pointer(unsafe.SliceData(r)))
+	for i, a := range hp.arrs {
+		if base >= a.lo && base < a.hi {
+			return slot{i + 1, int((base - a.lo) / rangeSize), len(r), cap(r)}
+		}
+	}
+	panic("c10: a range slice of the log lies in no backing array")
+}
+
+// contents reads the arrays as they are now.
+func (hp *heapProj) contents() [][]hrange {
+	out := make([][]hrange, len(hp.arrs)+1)
+	out[0] = []hrange{}
+	for i, a := range hp.arrs {
+		v := make([]hrange, len(a.view))
+		for j, x := range a.view {
+			v[j] = hrange{x.Offset, x.Length}
+		}
+		out[i+1] = v
+	}
+	return out
+}
+
+func sameHeap(a, b [][]hrange) bool {
+	if len(a) != len(b) {
+		return false
+	}
+	for i := range a {
+		if len(a[i]) != len(b[i]) {
+			return false
+		}
+		for j := range a[i] {
+			if a[i][j] != b[i][j] {
+				return false
+			}
+		}
+	}
+	return true
+}
+
+// snapshot: what every reference of the log says, the ranges of one reference as
+// a sorted multiset (sorting a reference's ranges in place does not change it).
+// Also the slice headers: the validators have no business changing those.
+func (f *hflow) snapshot(l bootengine.Log) []string {
+	var out []string
+	one := func(where string, r types.Reference) {
+		rr := make([]string, len(r.Ranges))
+		for i, x := range r.Ranges {
+			rr[i] = fmt.Sprintf("%#x+%#x", x.Offset, x.Length)
+		}
+		sort.Strings(rr)
+		out = append(out, fmt.Sprintf("%s: artifact %d (%s) ranges [%s]", where, f.arts[f.artIndex(r.Artifact)].id, mapperKey(r.AddressMapper), strings.Join(rr, " ")))
+	}
+	for i, st := range l {
+		n := 0
+		for _, d := range st.MeasuredData {
+			for _, r := range d.References {
+				one(fmt.Sprintf("step %d measured reference #%d", i, n), r)
+				n++
+			}
+		}
+		if st.ActorCode != nil {
+			for k, r := range st.ActorCode.References {
+				one(fmt.Sprintf("step %d actor code reference #%d", i, k), r)
+			}
+		}
+	}
+	return out
+}
+
+func snapDiff(a, b []string) string {
+	if len(a) != len(b) {
+		return fmt.Sprintf("the log has %d references instead of %d", len(b), len(a))
+	}
+	for i := range a {
+		if a[i] != b[i] {
+			return fmt.Sprintf("was {%s}, is now {%s}", a[i], b[i])
+		}
+	}
+	return ""
 }
 
 type pstep struct {
@@ -385,10 +622,10 @@ func (f *hflow) artIndex(sa types.SystemArtifact) int {
 	panic(fmt.Sprintf("artifact %T of the log is not in the table", sa))
 }
 
-func (f *hflow) projRefs(rs types.References) []pref {
+func (f *hflow) projRefs(rs types.References, hp *heapProj) []pref {
 	out := []pref{}
 	for _, r := range rs {
-		p := pref{art: f.artIndex(r.Artifact), mapper: r.AddressMapper, ranges: []hrange{}}
+		p := pref{art: f.artIndex(r.Artifact), mapper: r.AddressMapper, ranges: []hrange{}, sl: hp.slotOf(r.Ranges)}
 		for _, x := range r.Ranges {
 			p.ranges = append(p.ranges, hrange{x.Offset, x.Length})
 		}
@@ -402,7 +639,7 @@ type issueKey struct {
 	n    int
 }
 
-func (f *hflow) project(res *runResult) ([]pstep, map[issueKey]bootengine.StepIssue) {
+func (f *hflow) project(res *runResult, hp *heapProj) ([]pstep, map[issueKey]bootengine.StepIssue) {
 	out := make([]pstep, len(res.log))
 	issues := map[issueKey]bootengine.StepIssue{}
 	nextActor := 1000
@@ -419,9 +656,9 @@ func (f *hflow) project(res *runResult) ([]pstep, map[issueKey]bootengine.StepIs
 		}
 		if st.ActorCode != nil {
 			ps.hasCode = true
-			ps.code = f.projRefs(st.ActorCode.References)
+			ps.code = f.projRefs(st.ActorCode.References, hp)
 		}
-		ps.meas = f.projRefs(st.MeasuredData.References())
+		ps.meas = f.projRefs(st.MeasuredData.References(), hp)
 		for n, is := range st.Issues {
 			ps.issues = append(ps.issues, i*100+n)
 			issues[issueKey{i, n}] = is
@@ -610,6 +847,35 @@ func prefsLit(rs []pref) string {
 	return gal.List(s)
 }
 
+func hprefsLit(rs []pref) string {
+	s := make([]string, len(rs))
+	for i, r := range rs {
+		s[i] = fmt.Sprintf("(%s, %s, (%s, %s, %s, %s))", gal.Nat(r.art), mapperLit(r.mapper),
+			gal.Nat(r.sl.arr), gal.Nat(r.sl.off), gal.Nat(r.sl.n), gal.Nat(r.sl.c))
+	}
+	return gal.List(s)
+}
+
+func heapLit(h [][]hrange) string {
+	s := make([]string, len(h))
+	for i, a := range h {
+		s[i] = rangesLit(a)
+	}
+	return gal.List(s)
+}
+
+func hpstepsLit(ps []pstep) string {
+	s := make([]string, len(ps))
+	for i, p := range ps {
+		code := "None"
+		if p.hasCode {
+			code = "(Some " + hprefsLit(p.code) + ")"
+		}
+		s[i] = fmt.Sprintf("(%s, %s, %s, %s)", optZ(p.actor), code, hprefsLit(p.meas), gal.IntList(p.issues))
+	}
+	return gal.List(s)
+}
+
 func optZ(v int) string {
 	if v < 0 {
 		return "None"
@@ -696,7 +962,15 @@ func descrRefs(rs []href) []map[string]interface{} {
 		for _, x := range r.ranges {
 			rr = append(rr, fmt.Sprintf("%#x+%#x", x.Off, x.Len))
 		}
-		out = append(out, map[string]interface{}{"artifact": r.art.id, "addr": mapperKey(r.mapper), "ranges": rr})
+		d := map[string]interface{}{"artifact": r.art.id, "addr": mapperKey(r.mapper), "ranges": rr}
+		if r.lay != nil {
+			if r.lay.grp > 0 {
+				d["slice"] = fmt.Sprintf("shared array %d [%d:%d] cap %d", r.lay.grp, r.lay.off, r.lay.off+len(r.ranges), r.lay.cp)
+			} else {
+				d["slice"] = fmt.Sprintf("own array, len %d cap %d", len(r.ranges), len(r.ranges)+r.lay.spare)
+			}
+		}
+		out = append(out, d)
 	}
 	return out
 }
@@ -738,6 +1012,10 @@ func (f *hflow) descr() map[string]interface{} {
 		steps = append(steps, acts)
 	}
 	d := map[string]interface{}{"kind": f.kind, "artifacts": arts, "actors": actors, "steps": steps}
+	if f.layKind != "" {
+		d["slice_layout"] = f.layKind
+	}
+	d["validators"] = "one log; ValidatorActorsAreProtected, ValidatorFinalCoverageIsComplete, ValidatorNoIssues (validator.All()), then the first two again"
 	if f.uefi {
 		ex := []string{}
 		for _, x := range f.exec {
@@ -779,10 +1057,26 @@ func miniFV(total int, secType byte) []byte {
 
 // ---------- one case ----------
 
+// stageObs: one run of a validator over the log.
+type stageObs struct {
+	kind     int // 0 = ValidatorActorsAreProtected, 1 = ValidatorFinalCoverageIsComplete
+	pass     int
+	panicked bool
+	iss      []oissue
+	post     [][]hrange // the backing arrays afterwards
+	changed  bool       // ... differ from before
+	snap     []string   // what the log says afterwards
+}
+
+func (s stageObs) name() string {
+	return fmt.Sprintf("%s (pass %d over the same log)", [...]string{"ValidatorActorsAreProtected", "ValidatorFinalCoverageIsComplete"}[s.kind], s.pass)
+}
+
 func runCase(c *gal.Ctx, f *hflow) {
 	res := f.run()
 	rank := f.ranks()
-	psteps, logIssues := f.project(res)
+	hp := buildHeap(res.log)
+	psteps, logIssues := f.project(res, hp)
 	ctx := context.Background()
 
 	// what the model gets as the result of UEFIFiles(...).Data: the harness' own
@@ -800,23 +1094,61 @@ func runCase(c *gal.Ctx, f *hflow) {
 		filesLit = "(Some " + prefsLit(fr) + ")"
 	}
 
-	var vapIss, vfcIss, vniIss validator.Issues
-	vapPanic, _ := gal.Recover(func() { vapIss = validator.ValidatorActorsAreProtected{}.Validate(ctx, res.state, res.log) })
-	vfcPanic, _ := gal.Recover(func() { vfcIss = validator.ValidatorFinalCoverageIsComplete{}.Validate(ctx, res.state, res.log) })
-	vniPanic, _ := gal.Recover(func() { vniIss = validator.ValidatorNoIssues{}.Validate(ctx, res.state, res.log) })
-	if vniPanic {
+	h0 := hp.contents()
+	snap0 := f.snapshot(res.log)
+	smallSpare := false // some slice with fewer than two ranges has spare capacity
+	for _, r := range logSlices(res.log) {
+		if len(r) < 2 && cap(r) > len(r) {
+			smallSpare = true
+		}
+	}
+	cur := h0
+	stage := func(kind, pass int) stageObs {
+		o := stageObs{kind: kind, pass: pass}
+		var iss validator.Issues
+		if kind == 0 {
+			o.panicked, _ = gal.Recover(func() { iss = validator.ValidatorActorsAreProtected{}.Validate(ctx, res.state, res.log) })
+			o.iss = f.obsVAP(iss, rank) // taken now: the returned references may share arrays with the log
+		} else {
+			o.panicked, _ = gal.Recover(func() { iss = validator.ValidatorFinalCoverageIsComplete{}.Validate(ctx, res.state, res.log) })
+			o.iss = f.obsVFC(iss)
+		}
+		o.post = hp.contents()
+		o.changed = !sameHeap(cur, o.post)
+		cur = o.post
+		o.snap = f.snapshot(res.log)
+		return o
+	}
+	// the chain of validator.All() over one log, then the range validators again
+	var stages []stageObs
+	stages = append(stages, stage(0, 1), stage(1, 1))
+	var vniIss validator.Issues
+	if vniPanic, _ := gal.Recover(func() { vniIss = validator.ValidatorNoIssues{}.Validate(ctx, res.state, res.log) }); vniPanic {
 		panic("ValidatorNoIssues panicked")
 	}
-	oVAP := f.obsVAP(vapIss, rank)
-	oVFC := f.obsVFC(vfcIss)
 	oVNI := obsVNI(vniIss, logIssues)
+	stages = append(stages, stage(0, 2), stage(1, 2))
 
-	lit := fmt.Sprintf("CLog %s %s %s %s %s %s", f.artsLit(rank), pstepsLit(psteps), filesLit,
-		oissuesLit(vapPanic, oVAP), oissuesLit(vfcPanic, oVFC), vniLit(oVNI))
-	nontrivial := len(oVAP) > 0 || len(f.steps) > 1
+	sl := make([]string, len(stages))
+	for i, st := range stages {
+		post := "None"
+		if st.changed {
+			post = "(Some " + heapLit(st.post) + ")"
+		}
+		sl[i] = fmt.Sprintf("(%s, %s, %s)", gal.Nat(st.kind), oissuesLit(st.panicked, st.iss), post)
+	}
+	lit := fmt.Sprintf("CHeap %s %s %s %s %s %s", f.artsLit(rank), heapLit(h0), hpstepsLit(psteps), filesLit,
+		gal.List(sl), vniLit(oVNI))
+	nontrivial := len(stages[0].iss) > 0 || len(f.steps) > 1
 	idx := c.Add(f.kind, lit, f.descr(), nontrivial)
+	if f.layKind != "" {
+		c.Count("layout:" + f.layKind)
+	}
+	if smallSpare {
+		c.Count("log-has-small-slice-with-spare-capacity")
+	}
 
-	f.oracle(c, idx, res, vapPanic, oVAP, vfcPanic, oVFC, vniIss)
+	f.oracle(c, idx, res, stages, snap0, smallSpare, vniIss)
 }
 
 func main() {
@@ -833,7 +1165,9 @@ func main() {
 	for i := 0; i < n; i++ {
 		runCase(c, g.flow(i))
 	}
-	c.Finish("every flow is executed by the real interpreter, the log is projected, the three real validators run on it; " +
-		"model (Model/Validators.v) must reproduce every issue list (step, kind, non-measured and measured ranges); " +
-		"oracle: bitmaps over artifact offsets computed from the flow description")
+	c.Finish("every flow is executed by the real interpreter, the log is projected with its memory layout (backing arrays of all range slices, " +
+		"spare capacity, shared arrays), the real validators run on that one log one after another (validator.All(), then the range validators again); " +
+		"the slice-level model (Model/ValidatorsHeap.v) must reproduce every issue list (step, kind, non-measured and measured ranges) and the backing arrays after every run, " +
+		"the value-level model (Model/Validators.v) every issue list whenever no slice of fewer than two ranges has spare capacity; " +
+		"oracle: bitmaps over artifact offsets computed from the flow description, judged on every pass, plus: the log says the same after validation")
 }
